@@ -167,8 +167,14 @@ func (o *object) call(this Value, argumentList []Value, eval bool, frm frame) Va
 
 		// Enter a scope, name from the native object...
 		rt := o.runtime
-		if rt.scope != nil && !eval {
-			rt.enterFunctionScope(rt.scope.lexical, this)
+		if !eval {
+			// Called from Go on a runtime at rest there is no scope yet: the
+			// function scope is then entered on the global environment.
+			var lexical stasher
+			if rt.scope != nil {
+				lexical = rt.scope.lexical
+			}
+			rt.enterFunctionScope(lexical, this)
 			rt.scope.frame = frame{
 				native:     true,
 				nativeFile: fn.file,
